@@ -1646,3 +1646,99 @@ def g_r14_write_always_writes(p: Project, rep: Report):
     lo, hi = min(c.lineno for c in mk), max(c.lineno for c in wr)
     exits = [x for x in ast.walk(wc) if isinstance(x, (ast.Return, ast.Raise)) and lo < x.lineno < hi]
     rep.check("G-R14", "write_config:writes-after-mk_server_cfg", not exits, f"`{text(exits[0])[:40]}` (line {exits[0].lineno}) leaves write_config() after mk_server_cfg() has changed USERCFG and before it is written: the changes of this run - options removed because they now equal the lower sources' values, a generated CLIENTUID - never reach the file" if exits else "", gloc(p, exits[0] if exits else wc0))
+
+
+def j_r13_account_options_not_greedy(p: Project, rep: Report):
+    """an option that takes `one or more` values swallows the positional that follows it"""
+    rep.rule("J-R13", "no option of the ofxget parser that may be followed by the positional server nickname consumes a variable number of values (nargs '+' / '*' / argparse.REMAINDER): `ofxget stmt -C 123 mybank` would read `mybank` as a second checking account and leave the server unset, so the section [mybank] - its saved accounts and bank id - is never read")
+    m = p.module(OFXGET)
+    n = 0
+    for c in ast.walk(m.tree):
+        if isinstance(c, ast.Call) and isinstance(c.func, ast.Attribute) and c.func.attr == "add_argument":
+            n += 1
+            kw = {k.arg: k.value for k in c.keywords if k.arg}
+            positional = bool(c.args) and all(isinstance(a, ast.Constant) and isinstance(a.value, str) and not a.value.startswith("-") for a in c.args)
+            na = kw.get("nargs")
+            greedy = na is not None and ((isinstance(na, ast.Constant) and na.value in ("+", "*")) or text(na).endswith("REMAINDER"))
+            if greedy and not positional:
+                flags = [a.value for a in c.args if isinstance(a, ast.Constant)] or [text(a) for a in c.args]
+                rep.check("J-R13", f"argparse:{(flags or ['?'])[0]}:not-greedy", False, f"add_argument({', '.join(map(str, flags))[:40]}, nargs={text(na)}): the option takes every following non-option word, including the server nickname when it comes after the account numbers - that run requests a bogus account and ignores the server's saved settings", gloc(p, c))
+    rep.check("J-R13", "argparse:no-greedy-options", True, "", f"{n} add_argument calls")
+
+
+def g_r7b_persist_predicate_table(p: Project, rep: Report):
+    """which options mk_server_cfg() saves, as a truth table"""
+    import itertools as _it
+    from . import paths as PT
+
+    rep.rule("G-R7b", "the predicate that selects the options to save (test_cfg_val in mk_server_cfg, a nested or module-level function of (opt, value)) is TRUE exactly when the value is given (not in NULL_ARGS), is not the global CLIENTUID (opt == 'clientuid' and value equal to the [DEFAULT] one), and differs from what the lower-ranking sources yield: its exhaustive truth table over those tests - every returning path, boolean return expressions included - is compared with that formula.  `opt != 'clientuid' and value != defaults['clientuid']` for the middle clause (a De Morgan slip when three early returns are merged) never saves a CLIENTUID given with --clientuid, and removes one saved earlier")
+    mk0 = _fn(p, "mk_server_cfg")
+    cand = [st for st in ast.walk(mk0) if isinstance(st, ast.FunctionDef) and st is not mk0 and len(st.args.args) == 2]
+    cand += [st for st in p.module(OFXGET).tree.body if isinstance(st, ast.FunctionDef) and len(st.args.args) >= 2 and any(isinstance(c, ast.Call) and isinstance(c.func, ast.Name) and c.func.id == st.name for c in ast.walk(mk0)) and any(isinstance(x, ast.Name) and x.id == "NULL_ARGS" for x in ast.walk(st))]
+    if not cand:
+        rep.note("G-R7b undecided: the persist predicate is not a function of its own (inlined into the loop); decided by the other G-R7 clauses")
+        return
+    fn = cand[0]
+    optp, valp = fn.args.args[0].arg, fn.args.args[1].arg
+    try:
+        rps, pl = PT.return_paths(fn, None, Expander(fn))
+    except AnalysisError as e:
+        rep.note(f"G-R7b undecided: {e}")
+        return
+    conds = []
+    for pth, rtxt, sc in rps:
+        try:
+            rc = None if rtxt in ("True", "False") else PT.cond_of(ast.parse(rtxt, mode="eval").body)
+        except SyntaxError:
+            rep.note(f"G-R7b undecided: predicate returns {rtxt[:50]}")
+            return
+        conds.append((pth, rtxt, rc))
+    atoms = set()
+    for pth, rtxt, rc in conds:
+        for c_, _w in pth.conds:
+            atoms |= c_.atoms()
+        if rc is not None:
+            atoms |= rc.atoms()
+    atoms = sorted(atoms)
+
+    def role(a):
+        a_ = a.replace('"', "'")
+        if "NULL_ARGS" in a_:
+            return "null"
+        if a_.replace(" ", "") in (f"{optp}=='clientuid'", f"'clientuid'=={optp}"):
+            return "isuid"
+        if "['clientuid']" in a_ and valp in a_:
+            return "eqglobal"
+        if valp in a_ and ("DEFAULTS" in a_ or ".get(" in a_ or "ChainMap" in a_):
+            return "eqbase"
+        return None
+
+    roles = {a: role(a) for a in atoms}
+    if any(r is None for r in roles.values()) or len(atoms) > 8 or sorted(set(roles.values())) != ["eqbase", "eqglobal", "isuid", "null"]:
+        rep.note(f"G-R7b undecided: tests of the persist predicate not recognised: {[a for a, r in roles.items() if r is None][:3] or sorted(set(roles.values()))}")
+        return
+    # polarity of each atom relative to its role (canonical atoms are positive forms: `x in NULL_ARGS`, `a == b`)
+    wrong = []
+    for vals in _it.product([False, True], repeat=len(atoms)):
+        env = dict(zip(atoms, vals))
+        # atoms of one role must agree
+        byrole = {}
+        consistent = True
+        for a, v in env.items():
+            pos = v if " != " not in a and " not in " not in a else (not v)
+            if roles[a] in byrole and byrole[roles[a]] != pos:
+                consistent = False
+            byrole[roles[a]] = pos
+        if not consistent:
+            continue
+        got = None
+        for pth, rtxt, rc in conds:
+            if pth.holds(env):
+                got = (rtxt == "True") if rc is None else rc.ev(env)
+                break
+        if got is None:
+            continue
+        want = (not byrole["null"]) and not (byrole["isuid"] and byrole["eqglobal"]) and not byrole["eqbase"]
+        if got != want:
+            wrong.append((dict(byrole), got))
+    rep.check("G-R7b", "mk_server_cfg:persist-predicate-table", not wrong, f"the persist predicate answers {wrong[0][1]} for {wrong[0][0]} - expected {not wrong[0][1]} (save iff given, not the global CLIENTUID, and different from the lower sources): e.g. a CLIENTUID passed with --clientuid is never saved and one saved earlier is removed" if wrong else "", gloc(p, fn))
